@@ -636,9 +636,12 @@ class Full(Engine):
 
     def sorted_(self, args, kwargs, pc):
         """sorting network by insertion (stable): only lists of definite membership, <= 4 items"""
-        items = [x for _, x in self._all_present(args[0], pc)]
+        raw = self.iterate(args[0], pc)
         key = kwargs.get("key")
         rev = kwargs.get("reverse", False)
+        if not all(self.pybool(c) is True for c, _ in raw):
+            return self._sorted_guarded(raw, key, rev, pc)
+        items = [x for _, x in raw]
         def key_of(x):
             if key is None:
                 return x
@@ -670,6 +673,42 @@ class Full(Engine):
                 out[j] = (self.ite(sw, a[0], b[0]), self._pick(sw, a[1], b[1]))
                 j -= 1
         return SList([(TRUE, v) for _, v in out])
+
+    def _sorted_guarded(self, raw, key, rev, pc):
+        """stable sort of a list whose membership is path dependent: absent elements sink to the end and stay absent"""
+        if len(raw) > 4:
+            raise Unsupported("symbolic sort of more than 4 items")
+
+        def key_of(x, c):
+            if key is None:
+                return x
+            if isinstance(x, Guarded):
+                return self.dist_pc(x, z3.And(pc, c), lambda v, p: self.call(key, [v], {}, p))
+            return self.call(key, [x], {}, z3.And(pc, c))
+        n0 = len(self.raises)
+        trip = []
+        for c, x in raw:
+            c = self._lb(c)
+            trip.append((c, key_of(x, c), x))
+        revc = self.to_bool(rev)
+        out = []
+        for t in trip:
+            out.append(t)
+            j = len(out) - 1
+            while j > 0:
+                a, b = out[j - 1], out[j]
+                lt = self.to_bool(self.key_lt(b[1], a[1], pc))
+                gt = self.to_bool(self.key_lt(a[1], b[1], pc))
+                sw = z3.simplify(z3.And(b[0], z3.Or(z3.Not(a[0]), z3.If(revc, gt, lt))))
+                out[j - 1] = (z3.If(sw, b[0], a[0]), self._pickk(sw, b[1], a[1]), self._pick(sw, b[2], a[2]))
+                out[j] = (z3.If(sw, a[0], b[0]), self._pickk(sw, a[1], b[1]), self._pick(sw, a[2], b[2]))
+                j -= 1
+        return SList([(z3.simplify(c), v) for c, k, v in out])
+
+    def _pickk(self, c, a, b):
+        if isinstance(a, tuple) and isinstance(b, tuple) and len(a) == len(b):
+            return tuple(self._pickk(c, x, y) for x, y in zip(a, b))
+        return self.ite(c, a, b)
 
     def _pick(self, c, a, b):
         """a if c else b, keeping containers / objects apart (no field-wise merge) so that their identity survives sorting"""
